@@ -71,6 +71,11 @@ fn dispatch_plan(prop: &str, seed: u64, i: u64) -> i32 {
     with_sim!(prop, s => { kit::print_plan(s, seed, i); 0 }, _other => 2)
 }
 
+fn dispatch_fresh(file: &serde_json::Value, verif_dir: &str) -> i32 {
+    let prop = file["property"].as_str().unwrap_or("");
+    with_sim!(prop, s => kit::fresh_child(s, file, verif_dir), _other => 2)
+}
+
 fn dispatch_replay(file: &serde_json::Value, verif_dir: &str) -> i32 {
     let prop = file["property"].as_str().unwrap_or("");
     with_sim!(prop, s => kit::replay(s, file, verif_dir), other => {
@@ -129,6 +134,14 @@ fn main() {
             let seed = arg_val(&args, "--seed").and_then(|s| s.parse().ok()).unwrap_or(kit::DEFAULT_SEED);
             let i = arg_val(&args, "--index").and_then(|s| s.parse().ok()).unwrap_or(0);
             dispatch_plan(&prop, seed, i)
+        }
+        Some("fresh") => {
+            // internal: execute one scenario in this (fresh) process and print its outcome as JSON
+            let Some(path) = args.get(2) else { std::process::exit(2) };
+            match std::fs::read_to_string(path).map_err(|e| e.to_string()).and_then(|t| serde_json::from_str::<serde_json::Value>(&t).map_err(|e| e.to_string())) {
+                Ok(v) => dispatch_fresh(&v, &verif_dir),
+                Err(_) => 2,
+            }
         }
         Some("replay") => {
             let Some(path) = args.get(2) else {
